@@ -115,6 +115,74 @@ func (p *c02SubPart) accepts(s *vq.Stream, all []*c02Vis) bool {
 	return try(0, map[string]*vq.Stream{})
 }
 
+// c02SubTag is a tag with a one-filter definition; pred is that definition.
+type c02SubTag struct {
+	tg   *c02Tag
+	pred func(x *vq.Stream) bool
+}
+
+// holds: the stored bit where the tag is decided for the stream, the definition where it is pending.
+func (st *c02SubTag) holds(x *vq.Stream) bool {
+	for _, u := range st.tg.uncertain {
+		if uint64(u) == x.ID {
+			return st.pred(x)
+		}
+	}
+	for _, m := range st.tg.matches {
+		if uint64(m) == x.ID {
+			return true
+		}
+	}
+	return false
+}
+
+// c02GenSubTags draws up to two tags defined by a host, port or size filter, decided for some streams and pending
+// for others (their definition is then inlined into the searching query, re-scoped when the filter sits in a sub-query).
+func c02GenSubTags(t *rapid.T, pools *c02Pools) []*c02SubTag {
+	var out []*c02SubTag
+	for _, name := range []string{"tag/a", "tag/b"}[:rapid.IntRange(0, 2).Draw(t, "nsubtags")] {
+		st := &c02SubTag{tg: &c02Tag{name: name, raw: true}}
+		switch rapid.IntRange(0, 4).Draw(t, "subtagdef") {
+		case 0, 1:
+			hs := append(append([]net.IP{}, pools.h4...), pools.h6...)
+			h := rapid.SampledFrom(hs).Draw(t, "h")
+			if rapid.Bool().Draw(t, "serverside") {
+				st.tg.defText = fmt.Sprintf("shost:%s", h)
+				st.pred = func(x *vq.Stream) bool { return c02HostEq(x.SHost, h) }
+			} else {
+				st.tg.defText = fmt.Sprintf("chost:%s", h)
+				st.pred = func(x *vq.Stream) bool { return c02HostEq(x.CHost, h) }
+			}
+		case 2:
+			p := rapid.SampledFrom(pools.ports).Draw(t, "p")
+			st.tg.defText = fmt.Sprintf("sport:%d", p)
+			st.pred = func(x *vq.Stream) bool { return x.SPort == p }
+		case 3:
+			p := rapid.SampledFrom(pools.ports).Draw(t, "p")
+			st.tg.defText = fmt.Sprintf("cport:%d:", p)
+			st.pred = func(x *vq.Stream) bool { return x.CPort >= p }
+		default:
+			n := uint64(rapid.SampledFrom([]int{1, 2, 3, 100}).Draw(t, "n"))
+			st.tg.defText = fmt.Sprintf("cbytes:%d:", n)
+			st.pred = func(x *vq.Stream) bool { return x.CBytes >= n }
+		}
+		bits := rapid.SliceOfDistinct(rapid.UintRange(0, 33), rapid.ID[uint])
+		st.tg.matches = bits.Draw(t, "matches")
+		switch rapid.IntRange(0, 3).Draw(t, "pending") {
+		case 0:
+		case 1:
+			st.tg.uncertain = bits.Draw(t, "uncertain")
+		default:
+			for i := uint(0); i < 34; i++ {
+				st.tg.uncertain = append(st.tg.uncertain, i)
+			}
+		}
+		st.tg.nPos, st.tg.nNeg = 1, 1
+		out = append(out, st)
+	}
+	return out
+}
+
 func c02ClientData(s *vq.Stream, dir int) []byte {
 	var b []byte
 	for _, r := range s.Runs {
@@ -129,7 +197,14 @@ func c02HostEq(a, b net.IP) bool { return len(a) == len(b) && a.Equal(b) }
 
 func c02GenSubFilter(t *rapid.T, pools *c02Pools, sq string) (out c02SubTerm) {
 	defer func() { out.sq = sq; out.text = strings.Replace(out.text, "@s:", "@"+sq+":", 1) }()
-	switch rapid.IntRange(0, 7).Draw(t, "subkind") {
+	kinds := 7
+	if len(pools.subTags) > 0 {
+		kinds = 9
+	}
+	switch k := rapid.IntRange(0, kinds).Draw(t, "subkind"); k {
+	case 8, 9:
+		st := rapid.SampledFrom(pools.subTags).Draw(t, "subtag")
+		return c02SubTerm{text: "@s:tag:" + strings.TrimPrefix(st.tg.name, "tag/"), sub: st.holds}
 	case 0:
 		p := rapid.SampledFrom(pools.ports).Draw(t, "p")
 		return c02SubTerm{text: fmt.Sprintf("@s:cport:%d", p), sub: func(x *vq.Stream) bool { return x.CPort == p }}
@@ -160,6 +235,7 @@ func c02GenSubFilter(t *rapid.T, pools *c02Pools, sq string) (out c02SubTerm) {
 		return c02SubTerm{text: fmt.Sprintf("@s:port:%d", p), sub: func(x *vq.Stream) bool { return x.CPort == p || x.SPort == p }}
 	}
 }
+
 
 var c02CapRe = regexp.MustCompile("k[0-9]")
 
@@ -251,7 +327,14 @@ func c02GenCrossFilter(t *rapid.T, sq string, hasCapture bool) (out c02SubTerm) 
 }
 
 func c02GenPlainFilter(t *rapid.T, pools *c02Pools) c02SubTerm {
-	switch rapid.IntRange(0, 4).Draw(t, "plainkind") {
+	kinds := 4
+	if len(pools.subTags) > 0 {
+		kinds = 5
+	}
+	switch rapid.IntRange(0, kinds).Draw(t, "plainkind") {
+	case 5:
+		st := rapid.SampledFrom(pools.subTags).Draw(t, "plaintag")
+		return c02SubTerm{text: "tag:" + strings.TrimPrefix(st.tg.name, "tag/"), main: func(s, _ *vq.Stream) bool { return st.holds(s) }}
 	case 0:
 		p := rapid.SampledFrom(pools.ports).Draw(t, "p")
 		return c02SubTerm{text: fmt.Sprintf("sport:%d", p), main: func(s, _ *vq.Stream) bool { return s.SPort == p }}
@@ -319,6 +402,11 @@ func c02SubProp(rt *rapid.T, c *vlib.Case) {
 			pools.h6 = append(pools.h6, v.s.CHost)
 		}
 	}
+	pools.subTags = c02GenSubTags(rt, pools)
+	var tags []*c02Tag
+	for _, st := range pools.subTags {
+		tags = append(tags, st.tg)
+	}
 	type search struct {
 		parts []*c02SubPart
 		sp    *c02Search
@@ -367,7 +455,7 @@ func c02SubProp(rt *rapid.T, c *vlib.Case) {
 		searches = append(searches, s)
 	}
 	render := func(extra map[string]any) any {
-		m := c02RenderWorld(pop, nil)
+		m := c02RenderWorld(pop, tags)
 		sl := []any{}
 		for _, s := range searches {
 			sl = append(sl, s.sp.render())
@@ -384,7 +472,7 @@ func c02SubProp(rt *rapid.T, c *vlib.Case) {
 		rt.Fatalf("harness: %v", err)
 	}
 	defer os.RemoveAll(dir)
-	w, err := c02Build(dir, pop, nil)
+	w, err := c02Build(dir, pop, tags)
 	if err != nil {
 		rt.Fatalf("%v", err)
 	}
@@ -424,6 +512,8 @@ func c02SubProp(rt *rapid.T, c *vlib.Case) {
 				c.LabelIf(p.neg[i] && tm.uses, "sub:negated-cross-filter")
 				c.LabelIf(tm.capt, "sub:variable-bound-by-capture")
 				c.LabelIf(tm.sq == "b", "sub:two-sub-queries")
+				c.LabelIf(strings.Contains(tm.text, ":tag:") && tm.sub != nil, "sub:tag-filter-inside-sub-query")
+				c.LabelIf(strings.HasPrefix(tm.text, "tag:"), "sub:tag-filter-in-main-query")
 			}
 		}
 		if r.matches >= 1 && r.matches < len(pop.visible) {
